@@ -195,5 +195,75 @@ theorem runSteps_frame (d : Key) (stp : FS → Entry → Except Err FS)
       exact f1.trans (ih fs' (hr.of_frame f1))
     · exact Frame.refl _ _
 
+
+/-- unguarded `extractZip` step whose entry name happens to pass the (root-accepting) guard -/
+theorem zipStep_frame_of_guard (cfg : Cfg) (d0 : Str) (fs fs' : FS) (e : Entry)
+    (hg : guardOK true ('/' :: d0) (join ('/' :: d0) e.name) = true)
+    (hr : DestReady fs (comps (clean ('/' :: d0)))) (h : zipStep cfg ('/' :: d0) fs e = .ok fs') :
+    Frame (comps (clean ('/' :: d0))) fs fs' := by
+  obtain ⟨ht, hd⟩ := target_facts d0 e.name true hg
+  unfold zipStep at h
+  simp only at h
+  split at h
+  · cases h
+  · split at h
+    · exact mkdirAll_frame _ _ _ _ hr (Or.inr ht) h
+    · split at h
+      · cases h
+      · rename_i fs1 hm
+        have f1 : Frame (comps (clean ('/' :: d0))) fs fs1 := by
+          split at hm
+          · exact mkdirAll_frame _ _ _ _ hr hd hm
+          · cases hm; exact Frame.refl _ _
+        exact f1.trans (openWrite_frame _ _ _ _ _ _ (hr.of_frame f1) ht h)
+
+/-- `runSteps` with a per-entry hypothesis -/
+theorem runSteps_frame_mem (d : Key) (stp : FS → Entry → Except Err FS) :
+    ∀ (ar : List Entry), (∀ e ∈ ar, ∀ fs fs', DestReady fs d → stp fs e = .ok fs' → Frame d fs fs') →
+    ∀ (fs : FS), DestReady fs d → Frame d fs (runSteps stp fs ar).1 := by
+  intro ar
+  induction ar with
+  | nil => intro _ fs _; exact Frame.refl _ _
+  | cons e es ih =>
+    intro hstep fs hr
+    unfold runSteps
+    split
+    · rename_i fs' hs
+      have f1 := hstep e (by simp) fs fs' hr hs
+      exact f1.trans (ih (fun e' he' => hstep e' (by simp [he'])) fs' (hr.of_frame f1))
+    · exact Frame.refl _ _
+
+/-- the non-empty prefixes of a key -/
+def prefixesOf : Key → List Key
+  | [] => []
+  | c :: cs => [c] :: (prefixesOf cs).map (c :: ·)
+
+theorem mem_prefixesOf : ∀ (d pre : Key), pre <+: d → pre ≠ [] → pre ∈ prefixesOf d := by
+  intro d
+  induction d with
+  | nil => intro pre hp hne; exact absurd (List.prefix_nil.1 hp) hne
+  | cons c cs ih =>
+    intro pre hp hne
+    cases pre with
+    | nil => exact absurd rfl hne
+    | cons x xs =>
+      rw [List.cons_prefix_cons] at hp
+      obtain ⟨rfl, hxs⟩ := hp
+      by_cases hx : xs = []
+      · subst hx; simp [prefixesOf]
+      · simp only [prefixesOf, List.mem_cons, List.mem_map]
+        exact Or.inr ⟨xs, ih xs hxs hx, rfl⟩
+
+/-- decidable form of `DestReady` -/
+def destReadyB (fs : FS) (d : Key) : Bool :=
+  (prefixesOf d).all fun pre => lookup fs pre == some .dir
+
+theorem destReady_of_B (fs : FS) (d : Key) (h : destReadyB fs d = true) : DestReady fs d := by
+  intro pre hp hne
+  unfold destReadyB at h
+  rw [List.all_eq_true] at h
+  simpa using h pre (mem_prefixesOf d pre hp hne)
+
 end LlgoVerif.Extract
+
 
